@@ -54,14 +54,18 @@ def hook_env(hooks_on=True):
 class BuildError(Exception): pass
 
 _cache = {}
-def ir(config, flavour, crate="curve25519-dalek", features=None, hooks=True, no_default=False):
-    """returns path of the .ll file; builds it on first request within this process"""
-    key = (config, flavour, crate, tuple(features or ()), hooks, no_default)
+def ir(config, flavour, crate="curve25519-dalek", features=None, hooks=True, no_default=False, with_deps=False):
+    """returns path of the .ll file; builds it on first request within this process.
+    with_deps: emit IR for every crate of the build (RUSTFLAGS) and return a list of paths, the requested crate first
+    followed by the IR of its target dependencies exactly as compiled into it (same symbol hashes), curve25519-dalek first"""
+    key = (config, flavour, crate, tuple(features or ()), hooks, no_default, with_deps)
     if key in _cache: return _cache[key]
     tdir = os.path.join(workdir(), "ir-" + hashlib.sha1(repr(key).encode()).hexdigest()[:10])
     env = hook_env()
     rf = CONFIGS[config]
     if hooks: rf = "--cfg curve25519_dalek_verif " + rf
+    if with_deps:
+        rf += " --emit=llvm-ir,link " + " ".join(FLAVOURS[flavour])
     env["RUSTFLAGS"] = rf
     cmd = ["cargo"]
     if config == "avx512": cmd.append("+nightly")
@@ -69,7 +73,8 @@ def ir(config, flavour, crate="curve25519-dalek", features=None, hooks=True, no_
     if flavour != "O0": cmd.append("--release")
     if no_default: cmd.append("--no-default-features")
     if features: cmd += ["--features", ",".join(features)]
-    cmd += ["--", "--emit=llvm-ir"] + FLAVOURS[flavour]
+    if with_deps: cmd = [c for c in cmd if c != "rustc"]; cmd.insert(1 if config != "avx512" else 2, "build")
+    else: cmd += ["--", "--emit=llvm-ir"] + FLAVOURS[flavour]
     t0 = time.time()
     r = subprocess.run(cmd, cwd=REPO, env=env, capture_output=True, text=True)
     if r.returncode != 0:
@@ -78,6 +83,16 @@ def ir(config, flavour, crate="curve25519-dalek", features=None, hooks=True, no_
     cands = glob.glob(os.path.join(tdir, prof, "deps", crate.replace("-", "_") + "-*.ll"))
     if not cands: raise BuildError("no .ll produced for " + repr(key))
     path = max(cands, key=os.path.getmtime)
+    if with_deps:
+        host = ("proc_macro2", "quote", "syn", "semver", "rustc_version", "version_check", "unicode_ident", "zeroize_derive",
+                "build_script", "serde_derive", "curve25519_dalek_derive", "autocfg")
+        rest = [p for p in sorted(glob.glob(os.path.join(tdir, prof, "deps", "*.ll")), key=lambda q: (not os.path.basename(q).startswith("curve25519_dalek-"), q))
+                if p != path and not os.path.basename(p).startswith(host)]
+        newest = {}
+        for p in rest:
+            k = os.path.basename(p).rsplit("-", 1)[0]
+            if k not in newest or os.path.getmtime(p) > os.path.getmtime(newest[k]): newest[k] = p
+        path = [path] + [p for p in rest if newest[os.path.basename(p).rsplit("-", 1)[0]] == p]
     _cache[key] = path
     sys.stderr.write("[build] %s %s %s -> %.1fs\n" % (config, flavour, crate, time.time() - t0))
     return path
